@@ -84,6 +84,21 @@ class StorageInterface(ABC):
             **kwargs: Additional keyword arguments.
         """
 
+    def _has_leftovers(self, filename: Path, /, *args, **kwargs) -> bool:
+        """
+        Check for files that an interrupted save left behind. These are _not_ saved
+        content (nothing may ever be loaded from them), but they are ours to clean up.
+
+        Args:
+            filename (Path): The path to the file to look for (WITHOUT file extension).
+            **kwargs: Additional keyword arguments.
+
+        Returns:
+            bool: Whether such a file was found. (Default is False, for back-ends that
+                never leave anything behind.)
+        """
+        return False
+
     def save(self, node: Node, filename: str | Path | None = None, **kwargs):
         """
         Save a node to file.
@@ -164,7 +179,9 @@ class StorageInterface(ABC):
             **kwargs: Additional keyword arguments.
         """
         filename = self._parse_filename(node=node, filename=filename)
-        if self._has_saved_content(filename, **kwargs):
+        if self._has_saved_content(filename, **kwargs) or self._has_leftovers(
+            filename, **kwargs
+        ):
             self._delete(filename, **kwargs)
         if filename.parent.exists() and not any(filename.parent.iterdir()):
             filename.parent.rmdir()
@@ -297,6 +314,18 @@ class PickleStorage(StorageInterface):
             else [self._PICKLE]
         )
         return any(filename.with_suffix(suffix).exists() for suffix in suffixes)
+
+    def _has_leftovers(
+        self, filename: Path, /, cloudpickle_fallback: bool | None = None
+    ) -> bool:
+        suffixes = (
+            [self._PICKLE, self._CLOUDPICKLE]
+            if self._fallback(cloudpickle_fallback)
+            else [self._PICKLE]
+        )
+        return any(
+            self._tmp(filename.with_suffix(suffix)).exists() for suffix in suffixes
+        )
 
 
 def available_backends(
